@@ -135,7 +135,10 @@ for cfg, b in builds.items():
                 req.append(('components_not_nan', ' && '.join('%s == %s' % (x, x) for x in fl)))
         P.contract(n, '%s shim %s under %s vs default configuration' % (modname, n, ' '.join(CONFIGS.get(cfg, ['-' + cfg]))),
                    requires=req, ensures=ens, build=b, rel=('cfg_default', [n]), unwind=max(sc.unwind, 12) if (sc is not None and sc.unwind < 60) else 12,
-                   uf_float=('fmul', 'fdiv', 'fadd', 'fsub', 'sqrt', 'imul', 'iudiv', 'iurem', 'isdiv', 'isrem'), timeout=300 if cfg == 'O0' else 120, tier=tier_of(cfg, n),
+                   # pre-C++11 round fallback (floor(|x|) plus a comparison of |x| - floor(|x|)): it equals std::round only with exact + and -, so
+                   # these two stay interpreted for the functions that round under those configurations; * and / remain abstracted on both sides
+                   uf_float=('fmul', 'fdiv', 'sqrt', 'imul', 'iudiv', 'iurem', 'isdiv', 'isrem') if (cfg.startswith('cxx98') or cfg == 'cxx03') and re.search(r'pack|round|Round', n)
+                   else ('fmul', 'fdiv', 'fadd', 'fsub', 'sqrt', 'imul', 'iudiv', 'iurem', 'isdiv', 'isrem'), timeout=300 if cfg == 'O0' else 120, tier=tier_of(cfg, n),
                    backends=('sat',))
 
 P.level_text = ('for every (configuration, operation) of the generated table the result computed by the code clang extracts under that '
